@@ -418,7 +418,7 @@ fn main() {
     }
     // real threads, no hooks: measured, not proved
     if args.replay.is_none() {
-        let so = stress::stress(args.seed, if only_sched { 0 } else { args.budget(600, 20000) }, 3);
+        let so = stress::stress(args.seed, if only_sched { 0 } else { args.budget(600, 3000) }, 3);
         report.measured.insert("thread_stress_runs(3 mutator threads + 1 compaction thread, disjoint ids per thread)".into(), json!(so.runs));
         report.measured.insert("thread_stress_ops".into(), json!(so.ops));
         report.measured.insert("thread_stress_compactions".into(), json!(so.compactions));
